@@ -178,7 +178,9 @@ RulePair(f, t, p) ==
 \* words: members (each a fixed size integer, bool or the word32 W) and a declared size in bits.
 \* E380: "the declared size of a word does not match the total size of its members"; the property
 \* demands rejection of words LARGER than declared; smaller ones and padding are not documented.
-BitsOf(m) == CASE m \in {"i8", "u8", "bool"} -> 8 [] m \in {"i16", "u16"} -> 16 [] m \in {"i32", "u32", "W"} -> 32
+\* "T" is an UNDER-FILLED word, `word16 T { kind: u8 }` (eighth round of seeded changes): as a member it counts with its
+\* declared size; whether T itself is legal is not documented, so a word that holds one is at most unconstrained.
+BitsOf(m) == CASE m \in {"i8", "u8", "bool"} -> 8 [] m \in {"i16", "u16", "T"} -> 16 [] m \in {"i32", "u32", "W"} -> 32
                [] m \in {"i64", "u64"} -> 64 [] m \in {"i128", "u128"} -> 128
 RECURSIVE SumBits(_, _)
 SumBits(ms, i) == IF i > Len(ms) THEN 0 ELSE BitsOf(ms[i]) + SumBits(ms, i + 1)
@@ -187,7 +189,7 @@ NoPadding(ms, i, off) == IF i > Len(ms) THEN TRUE
                          ELSE LET al == IF BitsOf(ms[i]) > 64 THEN 64 ELSE BitsOf(ms[i])
                               IN off % al = 0 /\ NoPadding(ms, i + 1, off + BitsOf(ms[i]))
 RuleWord(ms, bits) == IF SumBits(ms, 1) > bits THEN Rej({380})
-                      ELSE IF SumBits(ms, 1) = bits /\ NoPadding(ms, 1, 0) THEN Acc
+                      ELSE IF SumBits(ms, 1) = bits /\ NoPadding(ms, 1, 0) /\ (\A i \in 1..Len(ms) : ms[i] # "T") THEN Acc
                       ELSE Unc
 
 \* named array lengths (E433): "either an integer literal or a named constant of type usize"
@@ -299,7 +301,7 @@ ModelPair(f, t, p) ==
 (***************************************************************************)
 (* Gen                                                                     *)
 (***************************************************************************)
-WordMembers == {"i8", "i16", "i32", "bool", "W", "u64", "u128"}
+WordMembers == {"i8", "i16", "i32", "bool", "W", "T", "u64", "u128"}
 \* the NUMBER of members is a dimension too: words of 4 / 8 / 9 / 16 / 17 one-byte members (exactly filled, one over)
 ManyBytes == {4, 8, 9, 16, 17}
 \* flags x kinds (lesson 9): `pub` and `extern` are allowed on every top-level declaration; "Structures and constants can
